@@ -1013,6 +1013,13 @@ class Evaluator:
                 return a0
             return T.call(path + '<' + (tys[0] if tys else '?') + '>', *args)
 
+        # --- operator traits called as methods (derive_more expands `a + b` to `a.val.add(b.val)`)
+        if path.startswith('std::ops::') and len(args) == 2 and name in ('add', 'sub', 'mul', 'div', 'rem') \
+                and self.numericish(args[0]) and self.numericish(args[1]) and (node is None or self.is_numeric_ty((node.get('recv_ty') or '').replace('&', ''))):
+            op = name.capitalize()
+            if node is not None:
+                self.site(op, node, args[0], args[1], body)
+            return self.arith(op, args[0], args[1], node or {})
         # --- numeric primitives
         if name == 'saturating_sub' and len(args) == 2 and (path.startswith('core::num') or path.startswith('std::num') or '::num::' in path):
             return T.pos(T.sub(args[0], args[1]))
